@@ -106,6 +106,8 @@ STATEMENT_STATUS: Dict[str, str] = {
     "C06_raw_precedence": "proved: fonts given with the BYTES of the embedded Type 1 program (tokeniser + "
                           "Type1FontHeaderParser stack machine + literal_name decoding) - construction succeeds and "
                           "text/advance are the specified ones whenever the header can be read",
+    "C06_raw_precedence_all": "proved: fonts given with the BYTES of the FontFile - construction raises exactly when reading the "
+                              "header raises; otherwise text and advance of EVERY code are the specified ones (no judged domain)",
     "header_ignored": "proved: the FontFile bytes have no influence unless the font is non-Type3, non-standard-14 and "
                       "has no Encoding entry",
     "exampleHeader_puts / put_underflow_ignored / odd_dict_raises": "proved by kernel evaluation of the tokeniser model on concrete headers",
